@@ -605,6 +605,60 @@ func (e *expEngine) isClamp(fn *ssa.Function) bool {
 	return true
 }
 
+// narrowExpArith: v (of a type narrower than 64 bits) is the result of +, -, * or << with a
+// load of a Decimal's exp field among the operands (the other operand not the neutral constant).
+func (e *expEngine) narrowExpArith(v ssa.Value, depth int) bool {
+	if depth == 0 {
+		return false
+	}
+	switch x := v.(type) {
+	case *ssa.Convert:
+		if isWideInt(x.X.Type()) {
+			return false
+		}
+		return e.narrowExpArith(x.X, depth-1)
+	case *ssa.ChangeType:
+		return e.narrowExpArith(x.X, depth-1)
+	case *ssa.BinOp:
+		switch x.Op {
+		case token.ADD, token.SUB, token.MUL, token.SHL:
+		default:
+			return false
+		}
+		isExp := func(o ssa.Value) bool {
+			for i := 0; i < 3; i++ {
+				switch c := o.(type) {
+				case *ssa.Convert:
+					if isWideInt(c.X.Type()) {
+						return false
+					}
+					o = c.X
+					continue
+				case *ssa.ChangeType:
+					o = c.X
+					continue
+				}
+				break
+			}
+			u, ok := o.(*ssa.UnOp)
+			if !ok || u.Op != token.MUL {
+				return false
+			}
+			fa, ok := e.m.DecField(u.X)
+			return ok && fa.Field == e.m.F.Exp
+		}
+		neutral := func(o ssa.Value) bool {
+			k, ok := model.ConstInt(o)
+			return ok && ((k == 0 && x.Op != token.MUL) || (k == 1 && x.Op == token.MUL))
+		}
+		if (isExp(x.X) && !neutral(x.Y)) || (isExp(x.Y) && !neutral(x.X)) {
+			return true
+		}
+		return e.narrowExpArith(x.X, depth-1) || e.narrowExpArith(x.Y, depth-1)
+	}
+	return false
+}
+
 // smallTerm: the value is bounded by construction (far from the int64 limits).
 func (e *expEngine) smallTerm(v ssa.Value, depth int, seen map[ssa.Value]bool) (bool, string) {
 	m := e.m
@@ -619,7 +673,13 @@ func (e *expEngine) smallTerm(v ssa.Value, depth int, seen map[ssa.Value]bool) (
 		return true, ""
 	case *ssa.Convert:
 		if !isWideInt(x.X.Type()) {
-			return true, "" // widened int32/uint32 field or smaller
+			// widened int32/uint32 field or smaller -- unless the narrow operand is itself arithmetic
+			// on an exponent field: that is carried out in 32 bits and wraps for exponents near the
+			// limits before the widening can help
+			if e.narrowExpArith(x.X, 4) {
+				return false, "arithmetic on an exponent field is carried out in 32 bits and widened afterwards: it wraps for exponents near MinExp/MaxExp before the range test sees the sum"
+			}
+			return true, ""
 		}
 		return e.smallTerm(x.X, depth-1, seen)
 	case *ssa.ChangeType:
